@@ -318,6 +318,20 @@ theorem sameLen_ok (o : List Expr) (x : R (List Expr)) (l : List Expr) (n : Nat)
   · rintro ⟨hx, hl⟩
     exact ⟨l, n, hx, by simp [hl]⟩
 
+theorem atMost_ok (o : List Expr) (x : R (List Expr)) (l : List Expr) (n : Nat) :
+    atMost o x = .ok (l, n) ↔ x = .ok (l, n) ∧ l.length ≤ o.length := by
+  unfold atMost
+  rw [R.bind_ok]
+  constructor
+  · rintro ⟨l', m, hx, h⟩
+    by_cases hl : l'.length ≤ o.length
+    · simp only [hl, if_true, Except.ok.injEq, Prod.mk.injEq] at h
+      obtain ⟨rfl, rfl⟩ := h
+      exact ⟨hx, hl⟩
+    · simp [hl] at h
+  · rintro ⟨hx, hl⟩
+    exact ⟨l, n, hx, by simp [hl]⟩
+
 /-! ### `ReplaceTransformer`: every node of the result carries a label handed out during this call -/
 mutual
 theorem instE_fresh (b : Bindings) : ∀ (e : Expr) (n : Nat) (r : List Expr) (n' : Nat),
@@ -395,7 +409,7 @@ theorem instE_fresh (b : Bindings) : ∀ (e : Expr) (n : Nat) (r : List Expr) (n
       · simp at h
   | .subscript _ f_value f_slice f_ctx, n, r, n', ha, h => by
       simp only [argsOkE, Bool.and_eq_true] at ha
-      simp only [instE, R.bind_ok, single_ok, sameLen_ok] at h
+      simp only [instE, R.bind_ok, single_ok, sameLen_ok, atMost_ok] at h
       obtain ⟨x0, m0, h0, x1, m1, h1, hres⟩ := h
       simp only [Except.ok.injEq, Prod.mk.injEq] at hres
       obtain ⟨rfl, rfl⟩ := hres
@@ -405,7 +419,7 @@ theorem instE_fresh (b : Bindings) : ∀ (e : Expr) (n : Nat) (r : List Expr) (n
       exact Fresh.cons (Fresh.append i0 i1)
   | .seq _ f_kind f_elts f_ctx, n, r, n', ha, h => by
       simp only [argsOkE, Bool.and_eq_true] at ha
-      simp only [instE, R.bind_ok, single_ok, sameLen_ok] at h
+      simp only [instE, R.bind_ok, single_ok, sameLen_ok, atMost_ok] at h
       obtain ⟨x0, m0, h0, hres⟩ := h
       simp only [Except.ok.injEq, Prod.mk.injEq] at hres
       obtain ⟨rfl, rfl⟩ := hres
@@ -414,7 +428,7 @@ theorem instE_fresh (b : Bindings) : ∀ (e : Expr) (n : Nat) (r : List Expr) (n
       exact Fresh.cons i0
   | .starred _ f_value f_ctx, n, r, n', ha, h => by
       simp only [argsOkE, Bool.and_eq_true] at ha
-      simp only [instE, R.bind_ok, single_ok, sameLen_ok] at h
+      simp only [instE, R.bind_ok, single_ok, sameLen_ok, atMost_ok] at h
       obtain ⟨x0, m0, h0, hres⟩ := h
       simp only [Except.ok.injEq, Prod.mk.injEq] at hres
       obtain ⟨rfl, rfl⟩ := hres
@@ -423,7 +437,7 @@ theorem instE_fresh (b : Bindings) : ∀ (e : Expr) (n : Nat) (r : List Expr) (n
       exact Fresh.cons i0
   | .const _ f_kind f_repr, n, r, n', ha, h => by
       simp only [argsOkE, Bool.and_eq_true] at ha
-      simp only [instE, R.bind_ok, single_ok, sameLen_ok] at h
+      simp only [instE, R.bind_ok, single_ok, sameLen_ok, atMost_ok] at h
       have hres := h
       simp only [Except.ok.injEq, Prod.mk.injEq] at hres
       obtain ⟨rfl, rfl⟩ := hres
@@ -431,7 +445,7 @@ theorem instE_fresh (b : Bindings) : ∀ (e : Expr) (n : Nat) (r : List Expr) (n
       exact Fresh.cons (Fresh.nil _)
   | .call _ f_func f_args f_keywords, n, r, n', ha, h => by
       simp only [argsOkE, Bool.and_eq_true] at ha
-      simp only [instE, R.bind_ok, single_ok, sameLen_ok] at h
+      simp only [instE, R.bind_ok, single_ok, sameLen_ok, atMost_ok] at h
       obtain ⟨x0, m0, h0, x1, m1, h1, x2, m2, h2, hres⟩ := h
       simp only [Except.ok.injEq, Prod.mk.injEq] at hres
       obtain ⟨rfl, rfl⟩ := hres
@@ -442,7 +456,7 @@ theorem instE_fresh (b : Bindings) : ∀ (e : Expr) (n : Nat) (r : List Expr) (n
       exact Fresh.cons (Fresh.append i0 (Fresh.append i1 i2))
   | .boolop _ f_isAnd f_values, n, r, n', ha, h => by
       simp only [argsOkE, Bool.and_eq_true] at ha
-      simp only [instE, R.bind_ok, single_ok, sameLen_ok] at h
+      simp only [instE, R.bind_ok, single_ok, sameLen_ok, atMost_ok] at h
       obtain ⟨x0, m0, h0, hres⟩ := h
       simp only [Except.ok.injEq, Prod.mk.injEq] at hres
       obtain ⟨rfl, rfl⟩ := hres
@@ -451,7 +465,7 @@ theorem instE_fresh (b : Bindings) : ∀ (e : Expr) (n : Nat) (r : List Expr) (n
       exact Fresh.cons i0
   | .unary _ f_op f_operand, n, r, n', ha, h => by
       simp only [argsOkE, Bool.and_eq_true] at ha
-      simp only [instE, R.bind_ok, single_ok, sameLen_ok] at h
+      simp only [instE, R.bind_ok, single_ok, sameLen_ok, atMost_ok] at h
       obtain ⟨x0, m0, h0, hres⟩ := h
       simp only [Except.ok.injEq, Prod.mk.injEq] at hres
       obtain ⟨rfl, rfl⟩ := hres
@@ -460,7 +474,7 @@ theorem instE_fresh (b : Bindings) : ∀ (e : Expr) (n : Nat) (r : List Expr) (n
       exact Fresh.cons i0
   | .binop _ f_op f_left f_right, n, r, n', ha, h => by
       simp only [argsOkE, Bool.and_eq_true] at ha
-      simp only [instE, R.bind_ok, single_ok, sameLen_ok] at h
+      simp only [instE, R.bind_ok, single_ok, sameLen_ok, atMost_ok] at h
       obtain ⟨x0, m0, h0, x1, m1, h1, hres⟩ := h
       simp only [Except.ok.injEq, Prod.mk.injEq] at hres
       obtain ⟨rfl, rfl⟩ := hres
@@ -470,7 +484,7 @@ theorem instE_fresh (b : Bindings) : ∀ (e : Expr) (n : Nat) (r : List Expr) (n
       exact Fresh.cons (Fresh.append i0 i1)
   | .compare _ f_left f_ops f_comparators, n, r, n', ha, h => by
       simp only [argsOkE, Bool.and_eq_true] at ha
-      simp only [instE, R.bind_ok, single_ok, sameLen_ok] at h
+      simp only [instE, R.bind_ok, single_ok, sameLen_ok, atMost_ok] at h
       obtain ⟨x0, m0, h0, x1, m1, ⟨h1, _⟩, hres⟩ := h
       simp only [Except.ok.injEq, Prod.mk.injEq] at hres
       obtain ⟨rfl, rfl⟩ := hres
@@ -480,7 +494,7 @@ theorem instE_fresh (b : Bindings) : ∀ (e : Expr) (n : Nat) (r : List Expr) (n
       exact Fresh.cons (Fresh.append i0 i1)
   | .ifexp _ f_test f_body f_orelse, n, r, n', ha, h => by
       simp only [argsOkE, Bool.and_eq_true] at ha
-      simp only [instE, R.bind_ok, single_ok, sameLen_ok] at h
+      simp only [instE, R.bind_ok, single_ok, sameLen_ok, atMost_ok] at h
       obtain ⟨x0, m0, h0, x1, m1, h1, x2, m2, h2, hres⟩ := h
       simp only [Except.ok.injEq, Prod.mk.injEq] at hres
       obtain ⟨rfl, rfl⟩ := hres
@@ -491,7 +505,7 @@ theorem instE_fresh (b : Bindings) : ∀ (e : Expr) (n : Nat) (r : List Expr) (n
       exact Fresh.cons (Fresh.append i0 (Fresh.append i1 i2))
   | .lambda _ f_args f_body, n, r, n', ha, h => by
       simp only [argsOkE, Bool.and_eq_true] at ha
-      simp only [instE, R.bind_ok, single_ok, sameLen_ok] at h
+      simp only [instE, R.bind_ok, single_ok, sameLen_ok, atMost_ok] at h
       obtain ⟨x0, m0, h0, x1, m1, h1, hres⟩ := h
       simp only [Except.ok.injEq, Prod.mk.injEq] at hres
       obtain ⟨rfl, rfl⟩ := hres
@@ -501,7 +515,7 @@ theorem instE_fresh (b : Bindings) : ∀ (e : Expr) (n : Nat) (r : List Expr) (n
       exact Fresh.cons (Fresh.append i0 i1)
   | .namedexpr _ f_target f_value, n, r, n', ha, h => by
       simp only [argsOkE, Bool.and_eq_true] at ha
-      simp only [instE, R.bind_ok, single_ok, sameLen_ok] at h
+      simp only [instE, R.bind_ok, single_ok, sameLen_ok, atMost_ok] at h
       obtain ⟨x0, m0, h0, x1, m1, h1, hres⟩ := h
       simp only [Except.ok.injEq, Prod.mk.injEq] at hres
       obtain ⟨rfl, rfl⟩ := hres
@@ -511,7 +525,7 @@ theorem instE_fresh (b : Bindings) : ∀ (e : Expr) (n : Nat) (r : List Expr) (n
       exact Fresh.cons (Fresh.append i0 i1)
   | .comp _ f_kind f_elts f_generators, n, r, n', ha, h => by
       simp only [argsOkE, Bool.and_eq_true] at ha
-      simp only [instE, R.bind_ok, single_ok, sameLen_ok] at h
+      simp only [instE, R.bind_ok, single_ok, sameLen_ok, atMost_ok] at h
       obtain ⟨x0, m0, ⟨h0, _⟩, x1, m1, h1, hres⟩ := h
       simp only [Except.ok.injEq, Prod.mk.injEq] at hres
       obtain ⟨rfl, rfl⟩ := hres
@@ -521,7 +535,7 @@ theorem instE_fresh (b : Bindings) : ∀ (e : Expr) (n : Nat) (r : List Expr) (n
       exact Fresh.cons (Fresh.append i0 i1)
   | .comprehension _ f_target f_iter f_ifs f_isAsync, n, r, n', ha, h => by
       simp only [argsOkE, Bool.and_eq_true] at ha
-      simp only [instE, R.bind_ok, single_ok, sameLen_ok] at h
+      simp only [instE, R.bind_ok, single_ok, sameLen_ok, atMost_ok] at h
       obtain ⟨x0, m0, h0, x1, m1, h1, x2, m2, h2, hres⟩ := h
       simp only [Except.ok.injEq, Prod.mk.injEq] at hres
       obtain ⟨rfl, rfl⟩ := hres
@@ -532,8 +546,8 @@ theorem instE_fresh (b : Bindings) : ∀ (e : Expr) (n : Nat) (r : List Expr) (n
       exact Fresh.cons (Fresh.append i0 (Fresh.append i1 i2))
   | .arguments _ f_posonly f_args f_vararg f_kwonly f_kwDefaults f_kwarg f_defaults, n, r, n', ha, h => by
       simp only [argsOkE, Bool.and_eq_true] at ha
-      simp only [instE, R.bind_ok, single_ok, sameLen_ok] at h
-      obtain ⟨x0, m0, h0, x1, m1, h1, x2, m2, ⟨h2, _⟩, x3, m3, h3, x4, m4, ⟨h4, _⟩, x5, m5, ⟨h5, _⟩, x6, m6, h6, hres⟩ := h
+      simp only [instE, R.bind_ok, single_ok, sameLen_ok, atMost_ok] at h
+      obtain ⟨x0, m0, h0, x1, m1, h1, x2, m2, ⟨h2, _⟩, x3, m3, h3, x4, m4, ⟨h4, _⟩, x5, m5, ⟨h5, _⟩, x6, m6, ⟨h6, _⟩, hres⟩ := h
       simp only [Except.ok.injEq, Prod.mk.injEq] at hres
       obtain ⟨rfl, rfl⟩ := hres
       have i0 := instEs_fresh b f_posonly _ _ _ ha.1 h0
@@ -547,7 +561,7 @@ theorem instE_fresh (b : Bindings) : ∀ (e : Expr) (n : Nat) (r : List Expr) (n
       exact Fresh.cons (Fresh.append i0 (Fresh.append i1 (Fresh.append i2 (Fresh.append i3 (Fresh.append i4 (Fresh.append i5 i6))))))
   | .withitem _ f_contextExpr f_optionalVars, n, r, n', ha, h => by
       simp only [argsOkE, Bool.and_eq_true] at ha
-      simp only [instE, R.bind_ok, single_ok, sameLen_ok] at h
+      simp only [instE, R.bind_ok, single_ok, sameLen_ok, atMost_ok] at h
       obtain ⟨x0, m0, h0, x1, m1, ⟨h1, _⟩, hres⟩ := h
       simp only [Except.ok.injEq, Prod.mk.injEq] at hres
       obtain ⟨rfl, rfl⟩ := hres
@@ -557,7 +571,7 @@ theorem instE_fresh (b : Bindings) : ∀ (e : Expr) (n : Nat) (r : List Expr) (n
       exact Fresh.cons (Fresh.append i0 i1)
   | .other _ f_kind f_attrs f_kids, n, r, n', ha, h => by
       simp only [argsOkE, Bool.and_eq_true] at ha
-      simp only [instE, R.bind_ok, single_ok, sameLen_ok] at h
+      simp only [instE, R.bind_ok, single_ok, sameLen_ok, atMost_ok] at h
       obtain ⟨x0, m0, ⟨h0, _⟩, hres⟩ := h
       simp only [Except.ok.injEq, Prod.mk.injEq] at hres
       obtain ⟨rfl, rfl⟩ := hres
@@ -616,7 +630,7 @@ theorem instS_fresh (b : Bindings) : ∀ (s : Stmt) (n : Nat) (r : List Stmt) (n
         exact Fresh.cons i1
   | .functionDef _ f_name f_args f_body f_decorators f_returns f_isAsync, n, r, n', ha, h => by
       simp only [argsOkS, Bool.and_eq_true] at ha
-      simp only [instS, R.bind_ok, single_ok, sameLen_ok] at h
+      simp only [instS, R.bind_ok, single_ok, sameLen_ok, atMost_ok] at h
       obtain ⟨x0, m0, h0, x1, m1, h1, x2, m2, h2, x3, m3, ⟨h3, _⟩, hres⟩ := h
       have i0 := instE_fresh b f_args _ _ _ ha.1 h0
       have i1 := instSs_fresh b f_body _ _ _ ha.2.1 h1
@@ -630,7 +644,7 @@ theorem instS_fresh (b : Bindings) : ∀ (s : Stmt) (n : Nat) (r : List Stmt) (n
       · simp at hres
   | .classDef _ f_name f_bases f_keywords f_body f_decorators, n, r, n', ha, h => by
       simp only [argsOkS, Bool.and_eq_true] at ha
-      simp only [instS, R.bind_ok, single_ok, sameLen_ok] at h
+      simp only [instS, R.bind_ok, single_ok, sameLen_ok, atMost_ok] at h
       obtain ⟨x0, m0, h0, x1, m1, h1, x2, m2, h2, x3, m3, h3, hres⟩ := h
       simp only [Except.ok.injEq, Prod.mk.injEq] at hres
       obtain ⟨rfl, rfl⟩ := hres
@@ -642,7 +656,7 @@ theorem instS_fresh (b : Bindings) : ∀ (s : Stmt) (n : Nat) (r : List Stmt) (n
       exact Fresh.cons (Fresh.append i0 (Fresh.append i1 (Fresh.append i2 i3)))
   | .ret _ f_value, n, r, n', ha, h => by
       simp only [argsOkS, Bool.and_eq_true] at ha
-      simp only [instS, R.bind_ok, single_ok, sameLen_ok] at h
+      simp only [instS, R.bind_ok, single_ok, sameLen_ok, atMost_ok] at h
       obtain ⟨x0, m0, ⟨h0, _⟩, hres⟩ := h
       simp only [Except.ok.injEq, Prod.mk.injEq] at hres
       obtain ⟨rfl, rfl⟩ := hres
@@ -651,7 +665,7 @@ theorem instS_fresh (b : Bindings) : ∀ (s : Stmt) (n : Nat) (r : List Stmt) (n
       exact Fresh.cons i0
   | .delete _ f_targets, n, r, n', ha, h => by
       simp only [argsOkS, Bool.and_eq_true] at ha
-      simp only [instS, R.bind_ok, single_ok, sameLen_ok] at h
+      simp only [instS, R.bind_ok, single_ok, sameLen_ok, atMost_ok] at h
       obtain ⟨x0, m0, h0, hres⟩ := h
       simp only [Except.ok.injEq, Prod.mk.injEq] at hres
       obtain ⟨rfl, rfl⟩ := hres
@@ -660,7 +674,7 @@ theorem instS_fresh (b : Bindings) : ∀ (s : Stmt) (n : Nat) (r : List Stmt) (n
       exact Fresh.cons i0
   | .assign _ f_targets f_value, n, r, n', ha, h => by
       simp only [argsOkS, Bool.and_eq_true] at ha
-      simp only [instS, R.bind_ok, single_ok, sameLen_ok] at h
+      simp only [instS, R.bind_ok, single_ok, sameLen_ok, atMost_ok] at h
       obtain ⟨x0, m0, h0, x1, m1, h1, hres⟩ := h
       simp only [Except.ok.injEq, Prod.mk.injEq] at hres
       obtain ⟨rfl, rfl⟩ := hres
@@ -670,7 +684,7 @@ theorem instS_fresh (b : Bindings) : ∀ (s : Stmt) (n : Nat) (r : List Stmt) (n
       exact Fresh.cons (Fresh.append i0 i1)
   | .augAssign _ f_target f_op f_value, n, r, n', ha, h => by
       simp only [argsOkS, Bool.and_eq_true] at ha
-      simp only [instS, R.bind_ok, single_ok, sameLen_ok] at h
+      simp only [instS, R.bind_ok, single_ok, sameLen_ok, atMost_ok] at h
       obtain ⟨x0, m0, h0, x1, m1, h1, hres⟩ := h
       simp only [Except.ok.injEq, Prod.mk.injEq] at hres
       obtain ⟨rfl, rfl⟩ := hres
@@ -680,7 +694,7 @@ theorem instS_fresh (b : Bindings) : ∀ (s : Stmt) (n : Nat) (r : List Stmt) (n
       exact Fresh.cons (Fresh.append i0 i1)
   | .annAssign _ f_target f_annotation f_value f_simple, n, r, n', ha, h => by
       simp only [argsOkS, Bool.and_eq_true] at ha
-      simp only [instS, R.bind_ok, single_ok, sameLen_ok] at h
+      simp only [instS, R.bind_ok, single_ok, sameLen_ok, atMost_ok] at h
       obtain ⟨x0, m0, h0, x1, m1, h1, x2, m2, ⟨h2, _⟩, hres⟩ := h
       simp only [Except.ok.injEq, Prod.mk.injEq] at hres
       obtain ⟨rfl, rfl⟩ := hres
@@ -691,7 +705,7 @@ theorem instS_fresh (b : Bindings) : ∀ (s : Stmt) (n : Nat) (r : List Stmt) (n
       exact Fresh.cons (Fresh.append i0 (Fresh.append i1 i2))
   | .for_ _ f_target f_iter f_body f_orelse f_extraTest f_isAsync, n, r, n', ha, h => by
       simp only [argsOkS, Bool.and_eq_true] at ha
-      simp only [instS, R.bind_ok, single_ok, sameLen_ok] at h
+      simp only [instS, R.bind_ok, single_ok, sameLen_ok, atMost_ok] at h
       obtain ⟨x0, m0, h0, x1, m1, h1, x2, m2, h2, x3, m3, h3, x4, m4, ⟨h4, _⟩, hres⟩ := h
       simp only [Except.ok.injEq, Prod.mk.injEq] at hres
       obtain ⟨rfl, rfl⟩ := hres
@@ -704,7 +718,7 @@ theorem instS_fresh (b : Bindings) : ∀ (s : Stmt) (n : Nat) (r : List Stmt) (n
       exact Fresh.cons (Fresh.append i0 (Fresh.append i1 (Fresh.append i2 (Fresh.append i3 i4))))
   | .while_ _ f_test f_body f_orelse, n, r, n', ha, h => by
       simp only [argsOkS, Bool.and_eq_true] at ha
-      simp only [instS, R.bind_ok, single_ok, sameLen_ok] at h
+      simp only [instS, R.bind_ok, single_ok, sameLen_ok, atMost_ok] at h
       obtain ⟨x0, m0, h0, x1, m1, h1, x2, m2, h2, hres⟩ := h
       simp only [Except.ok.injEq, Prod.mk.injEq] at hres
       obtain ⟨rfl, rfl⟩ := hres
@@ -715,7 +729,7 @@ theorem instS_fresh (b : Bindings) : ∀ (s : Stmt) (n : Nat) (r : List Stmt) (n
       exact Fresh.cons (Fresh.append i0 (Fresh.append i1 i2))
   | .if_ _ f_test f_body f_orelse, n, r, n', ha, h => by
       simp only [argsOkS, Bool.and_eq_true] at ha
-      simp only [instS, R.bind_ok, single_ok, sameLen_ok] at h
+      simp only [instS, R.bind_ok, single_ok, sameLen_ok, atMost_ok] at h
       obtain ⟨x0, m0, h0, x1, m1, h1, x2, m2, h2, hres⟩ := h
       simp only [Except.ok.injEq, Prod.mk.injEq] at hres
       obtain ⟨rfl, rfl⟩ := hres
@@ -726,7 +740,7 @@ theorem instS_fresh (b : Bindings) : ∀ (s : Stmt) (n : Nat) (r : List Stmt) (n
       exact Fresh.cons (Fresh.append i0 (Fresh.append i1 i2))
   | .with_ _ f_items f_body f_isAsync, n, r, n', ha, h => by
       simp only [argsOkS, Bool.and_eq_true] at ha
-      simp only [instS, R.bind_ok, single_ok, sameLen_ok] at h
+      simp only [instS, R.bind_ok, single_ok, sameLen_ok, atMost_ok] at h
       obtain ⟨x0, m0, h0, x1, m1, h1, hres⟩ := h
       simp only [Except.ok.injEq, Prod.mk.injEq] at hres
       obtain ⟨rfl, rfl⟩ := hres
@@ -736,7 +750,7 @@ theorem instS_fresh (b : Bindings) : ∀ (s : Stmt) (n : Nat) (r : List Stmt) (n
       exact Fresh.cons (Fresh.append i0 i1)
   | .raise _ f_exc f_cause, n, r, n', ha, h => by
       simp only [argsOkS, Bool.and_eq_true] at ha
-      simp only [instS, R.bind_ok, single_ok, sameLen_ok] at h
+      simp only [instS, R.bind_ok, single_ok, sameLen_ok, atMost_ok] at h
       obtain ⟨x0, m0, ⟨h0, _⟩, x1, m1, ⟨h1, _⟩, hres⟩ := h
       simp only [Except.ok.injEq, Prod.mk.injEq] at hres
       obtain ⟨rfl, rfl⟩ := hres
@@ -746,7 +760,7 @@ theorem instS_fresh (b : Bindings) : ∀ (s : Stmt) (n : Nat) (r : List Stmt) (n
       exact Fresh.cons (Fresh.append i0 i1)
   | .try_ _ f_body f_handlers f_orelse f_finalbody, n, r, n', ha, h => by
       simp only [argsOkS, Bool.and_eq_true] at ha
-      simp only [instS, R.bind_ok, single_ok, sameLen_ok] at h
+      simp only [instS, R.bind_ok, single_ok, sameLen_ok, atMost_ok] at h
       obtain ⟨x0, m0, h0, x1, m1, h1, x2, m2, h2, x3, m3, h3, hres⟩ := h
       simp only [Except.ok.injEq, Prod.mk.injEq] at hres
       obtain ⟨rfl, rfl⟩ := hres
@@ -758,7 +772,7 @@ theorem instS_fresh (b : Bindings) : ∀ (s : Stmt) (n : Nat) (r : List Stmt) (n
       exact Fresh.cons (Fresh.append i0 (Fresh.append i1 (Fresh.append i2 i3)))
   | .handler _ f_type_ f_name f_body, n, r, n', ha, h => by
       simp only [argsOkS, Bool.and_eq_true] at ha
-      simp only [instS, R.bind_ok, single_ok, sameLen_ok] at h
+      simp only [instS, R.bind_ok, single_ok, sameLen_ok, atMost_ok] at h
       obtain ⟨x0, m0, ⟨h0, _⟩, x1, m1, h1, hres⟩ := h
       simp only [Except.ok.injEq, Prod.mk.injEq] at hres
       obtain ⟨rfl, rfl⟩ := hres
@@ -768,7 +782,7 @@ theorem instS_fresh (b : Bindings) : ∀ (s : Stmt) (n : Nat) (r : List Stmt) (n
       exact Fresh.cons (Fresh.append i0 i1)
   | .assert_ _ f_test f_msg, n, r, n', ha, h => by
       simp only [argsOkS, Bool.and_eq_true] at ha
-      simp only [instS, R.bind_ok, single_ok, sameLen_ok] at h
+      simp only [instS, R.bind_ok, single_ok, sameLen_ok, atMost_ok] at h
       obtain ⟨x0, m0, h0, x1, m1, ⟨h1, _⟩, hres⟩ := h
       simp only [Except.ok.injEq, Prod.mk.injEq] at hres
       obtain ⟨rfl, rfl⟩ := hres
@@ -778,7 +792,7 @@ theorem instS_fresh (b : Bindings) : ∀ (s : Stmt) (n : Nat) (r : List Stmt) (n
       exact Fresh.cons (Fresh.append i0 i1)
   | .import_ _ f_names, n, r, n', ha, h => by
       simp only [argsOkS, Bool.and_eq_true] at ha
-      simp only [instS, R.bind_ok, single_ok, sameLen_ok] at h
+      simp only [instS, R.bind_ok, single_ok, sameLen_ok, atMost_ok] at h
       have hres := h
       simp only [Except.ok.injEq, Prod.mk.injEq] at hres
       obtain ⟨rfl, rfl⟩ := hres
@@ -786,7 +800,7 @@ theorem instS_fresh (b : Bindings) : ∀ (s : Stmt) (n : Nat) (r : List Stmt) (n
       exact Fresh.cons (Fresh.nil _)
   | .importFrom _ f_module f_names f_level, n, r, n', ha, h => by
       simp only [argsOkS, Bool.and_eq_true] at ha
-      simp only [instS, R.bind_ok, single_ok, sameLen_ok] at h
+      simp only [instS, R.bind_ok, single_ok, sameLen_ok, atMost_ok] at h
       have hres := h
       simp only [Except.ok.injEq, Prod.mk.injEq] at hres
       obtain ⟨rfl, rfl⟩ := hres
@@ -794,7 +808,7 @@ theorem instS_fresh (b : Bindings) : ∀ (s : Stmt) (n : Nat) (r : List Stmt) (n
       exact Fresh.cons (Fresh.nil _)
   | .global _ f_names, n, r, n', ha, h => by
       simp only [argsOkS, Bool.and_eq_true] at ha
-      simp only [instS, R.bind_ok, single_ok, sameLen_ok] at h
+      simp only [instS, R.bind_ok, single_ok, sameLen_ok, atMost_ok] at h
       have hres := h
       simp only [Except.ok.injEq, Prod.mk.injEq] at hres
       obtain ⟨rfl, rfl⟩ := hres
@@ -802,7 +816,7 @@ theorem instS_fresh (b : Bindings) : ∀ (s : Stmt) (n : Nat) (r : List Stmt) (n
       exact Fresh.cons (Fresh.nil _)
   | .nonlocal _ f_names, n, r, n', ha, h => by
       simp only [argsOkS, Bool.and_eq_true] at ha
-      simp only [instS, R.bind_ok, single_ok, sameLen_ok] at h
+      simp only [instS, R.bind_ok, single_ok, sameLen_ok, atMost_ok] at h
       have hres := h
       simp only [Except.ok.injEq, Prod.mk.injEq] at hres
       obtain ⟨rfl, rfl⟩ := hres
@@ -810,7 +824,7 @@ theorem instS_fresh (b : Bindings) : ∀ (s : Stmt) (n : Nat) (r : List Stmt) (n
       exact Fresh.cons (Fresh.nil _)
   | .pass _, n, r, n', ha, h => by
       simp only [argsOkS, Bool.and_eq_true] at ha
-      simp only [instS, R.bind_ok, single_ok, sameLen_ok] at h
+      simp only [instS, R.bind_ok, single_ok, sameLen_ok, atMost_ok] at h
       have hres := h
       simp only [Except.ok.injEq, Prod.mk.injEq] at hres
       obtain ⟨rfl, rfl⟩ := hres
@@ -818,7 +832,7 @@ theorem instS_fresh (b : Bindings) : ∀ (s : Stmt) (n : Nat) (r : List Stmt) (n
       exact Fresh.cons (Fresh.nil _)
   | .break_ _, n, r, n', ha, h => by
       simp only [argsOkS, Bool.and_eq_true] at ha
-      simp only [instS, R.bind_ok, single_ok, sameLen_ok] at h
+      simp only [instS, R.bind_ok, single_ok, sameLen_ok, atMost_ok] at h
       have hres := h
       simp only [Except.ok.injEq, Prod.mk.injEq] at hres
       obtain ⟨rfl, rfl⟩ := hres
@@ -826,7 +840,7 @@ theorem instS_fresh (b : Bindings) : ∀ (s : Stmt) (n : Nat) (r : List Stmt) (n
       exact Fresh.cons (Fresh.nil _)
   | .continue_ _, n, r, n', ha, h => by
       simp only [argsOkS, Bool.and_eq_true] at ha
-      simp only [instS, R.bind_ok, single_ok, sameLen_ok] at h
+      simp only [instS, R.bind_ok, single_ok, sameLen_ok, atMost_ok] at h
       have hres := h
       simp only [Except.ok.injEq, Prod.mk.injEq] at hres
       obtain ⟨rfl, rfl⟩ := hres
@@ -834,7 +848,7 @@ theorem instS_fresh (b : Bindings) : ∀ (s : Stmt) (n : Nat) (r : List Stmt) (n
       exact Fresh.cons (Fresh.nil _)
   | .other _ f_kind f_exprs f_blocks, n, r, n', ha, h => by
       simp only [argsOkS, Bool.and_eq_true] at ha
-      simp only [instS, R.bind_ok, single_ok, sameLen_ok] at h
+      simp only [instS, R.bind_ok, single_ok, sameLen_ok, atMost_ok] at h
       obtain ⟨x0, m0, h0, x1, m1, h1, hres⟩ := h
       simp only [Except.ok.injEq, Prod.mk.injEq] at hres
       obtain ⟨rfl, rfl⟩ := hres
